@@ -59,9 +59,48 @@ let predict_eng (discard : bool) (toks : z list) (durs : z list) : string list =
     (match s.s_dec with Fire -> "F" | Discard -> "D")
     ^ bit (zle s.s_tok s.s_entry) ^ bit (zle max_overdue (zsub s.s_entry s.s_tok)) ^ "1") shots
 
+(* st: preset cached reading, one token, "now" is 10 s after the base instant *)
+let predict_st (last : string) (tok : string) : string =
+  let now = z_of_zt (ZT.of_string "10000000000") in
+  let lastz = if last = "none" then None else Some (z_of_string last) in
+  let tokz = z_of_string tok in
+  let st = { lastNow = lastz; overdue = z_of_int 0 } in
+  let c = { c_ctx_done = false; c_tok = Some tokz; c_now = now; c_cancel_in_sleep = false; c_wake = tokz } in
+  let (st', o) = wait wcurrent st c in
+  let exact = (not o.w_read) && (match lastz with Some l -> zt_of_z st'.overdue = ZT.sub (zt_of_z l) (zt_of_z tokz) | None -> false) in
+  bit o.w_ok ^ bit (is_slow_down st') ^ bit o.w_read ^ bit exact
+
+let predict_near (us : string list) : string list =
+  let st = ref wstate_init and t = ref (z_of_int 0) in
+  List.map (fun u ->
+    let enter = !t in
+    let next = zadd enter (z_of_zt (ZT.mul (ZT.of_string u) (ZT.of_int 1000))) in
+    let c = { c_ctx_done = false; c_tok = Some next; c_now = enter; c_cancel_in_sleep = false; c_wake = next } in
+    let (st', o) = wait wcurrent !st c in
+    st := st';
+    let ret = return_lower enter c o in
+    t := ret;
+    bit o.w_ok ^ bit (zle next ret)) us
+
 let predict (c : string) (obs : string) : string * string * bool =
   let ofs = if obs = "" then [] else split_blank obs in
+  if obs = "disturbed" then
+    (* the machine could not keep time during any of the attempts (canary): no information *)
+    ("disturbed", "ok", false)
+  else
   match split_blank c with
+  | [ "st"; last; tok ] ->
+      let pred = predict_st last tok in
+      (* the token is more than 5 s in the past of the real clock: it must be judged slow *)
+      let v = if String.length obs <> 4 then "BAD:w:malformed-observation"
+              else if obs.[0] <> '1' then "BAD:w:wait-refused-a-due-token"
+              else if obs.[1] <> '1' then "BAD:w:token-2s-late-at-pick-up-not-slow-down"
+              else "ok" in
+      (pred, v, true)
+  | "near" :: us ->
+      let pred = predict_near us in
+      let bad = List.exists (fun f -> String.length f <> 2 || f.[0] <> '1' || f.[1] <> '1') ofs || List.length ofs <> List.length us in
+      (String.concat " " pred, (if bad then "BAD:w:wait-returned-before-the-token-time" else "ok"), true)
   | "w" :: steps ->
       let pred = predict_w steps in
       let bad = ref "" in
